@@ -110,6 +110,18 @@ CLAIMED["C08"] = {
     "assumptions": ["values are unique integers so each read is attributable to one write", "four packages, four variable names, three function names, two macro names"],
 }
 
+CLAIMED["C11"] = {
+    "engine": "heap",
+    "level": "exploration",
+    "technique": "deterministic simulation of histories over an aliased heap: seeded sequences of container operations on ten variables (constructors, views, non-mutating and mutating builtins, containers inside containers) with a small per-operation allocation cap and lisp callbacks failing part-way as injected faults; every variable is re-inspected after every step and compared with an executable heap model",
+    "text": "Histories of 8-40 operations (list, vector, sorted-map, to-bytes, make-sequence, aliasing, slice, cdr, rest, append, cons, reverse, map, select, reject, zip, insert-index, insert-sorted, concat, assoc, dissoc, keys, nth, get, length, assoc!, dissoc!, append!, append-bytes!, append-bytes, stable-sort with comparator or key function) whose operands are earlier values, so views of views, chained appends and containers stored in containers arise. After every step the printed form of all ten variables is compared with a heap model of headers (backing array, offset, length) and name-keyed maps with remembered spelling: non-mutating operations must leave every existing value unchanged, mutating ones change exactly their target and are seen through every alias and overlapping view, appending to a view detaches it. Faults: a per-operation allocation cap of 2-8 makes operations refuse (nothing may change), and map/select/reject/stable-sort callbacks fail at their n-th call (a failed in-place sort may leave its window in any order, nothing else may change). Seeded sampling.",
+    "note": "Trusted: the heap model in sim/e7_heap.go. Not modelled, and therefore not generated: quoted literals (C09's subject), append! to a vector that shares storage with another live value unless it is a fresh view (whether spare capacity is reused is not part of the documented contract), zero-value append, cyclic structures, non-integer elements in sorted/mapped sequences.",
+    "design_ref": "4/C11",
+    "rule": "case = history of explicit container operations + allocation-cap knob + callback fault positions; distinct_nontrivial counts distinct (operation kinds, destination renderings) hashes among histories in which an operation was refused by the allocation cap or a callback failed mid-operation.",
+    "real": REAL, "stubs": STUBS,
+    "assumptions": ["ten global variables; sequences of at most ~15 elements; maps over 8 key spellings of 5 names"],
+}
+
 NOT_APPLICABLE = {
     "C01": "pure function of the program text: no schedule, clock, fault or history in the statement; needs a definitional interpreter (differential testing), which is a different technique",
     "C02": "relation between two fault-free deterministic executions under two static configurations plus a height bound that is a function of the program; nothing for a simulator to schedule or inject (the TRO knob is still randomised inside C04-C06)",
@@ -118,7 +130,6 @@ NOT_APPLICABLE = {
     "C12": "law over a single input value (datum / source text); no schedule, clock, fault or history",
     "C13": "law over a single JSON value / document; no schedule, clock, fault or history",
     "C14": "law over schema x value; no schedule, clock, fault or history",
-    "C11": "a simulation target in DESIGN.md (history clauses); check not built yet at this commit",
     "C16": "text-to-text function of the source; no schedule, clock, fault or history",
     "C17": "program-equivalence between two fault-free evaluations; no schedule, clock, fault or history",
     "C18": "location and trace are functions of the program; the rethrow-identity clause is checked inside C06",
